@@ -876,9 +876,10 @@ ARCHIVE_CLASSES = {"zipfile.ZipFile": "zip", "tarfile.open": "tar", "tarfile.Tar
 
 
 class Confined:
-    def __init__(self, mods, sanitiser="_safe_join"):
+    def __init__(self, mods, sanitiser="_safe_join", package_text=""):
         self.mods = mods                         # rel -> loader.Module
         self.sanitiser = sanitiser
+        self.package_text = package_text         # source of every module of the package (to tell dead code from externally called code)
         self.fns = {}                            # (rel, qualname) -> node
         for rel, m in mods.items():
             for q, f in m.functions.items():
@@ -923,7 +924,7 @@ class Confined:
                 return rel, cname
         return None
 
-    def receiver_class(self, key, recv):
+    def receiver_class(self, key, recv, depth=0):
         """class (rel, name) of the receiver expression of a method call, None if unknown; 'archive:zip' / 'archive:tar' for library archives"""
         rel, q = key
         f = self.fns[key]
@@ -953,6 +954,15 @@ class Confined:
                         kinds.add("archive:" + ARCHIVE_CLASSES[full])
                     elif self.class_of_name(ann.split(".")[-1]):
                         kinds.add(self.class_of_name(ann.split(".")[-1]))
+            if not kinds and recv.id in self.params(key) and "." not in q and depth < 3:
+                # an un-annotated parameter of a module-level helper: the class every direct call site passes
+                for ck, f2 in self.fns.items():
+                    for n in ast.walk(f2):
+                        if isinstance(n, ast.Call) and isinstance(n.func, ast.Name) and n.func.id == q and self.owner.get(id(n)) == ck:
+                            if ck[0] != rel and not self.mods[ck[0]].imports.get(q, "").endswith("." + q):
+                                continue
+                            amap = self.bind(key, n)
+                            kinds.add(self.receiver_class(ck, amap[recv.id], depth + 1) if amap and recv.id in amap else None)
             return kinds.pop() if len(kinds) == 1 else None
         if isinstance(recv, ast.Attribute) and isinstance(recv.value, ast.Name) and recv.value.id == "self" and "." in q:
             cls = self.mods[rel].classes.get(q.rsplit(".", 1)[0])
@@ -1118,7 +1128,22 @@ class Confined:
                     return False
         return True
 
+    def dead(self, key):
+        """no call site in the two modules and the name is mentioned nowhere else in the package: unreachable code, judged relative
+        to its own parameters (whatever base a future caller passes)"""
+        if self.sites.get(key):
+            return False
+        name = key[1].split(".")[-1]
+        if name.startswith("__"):
+            return False
+        text = self.package_text or "\n".join(m.source for m in self.mods.values())
+        return len(re.findall(r"\b" + re.escape(name) + r"\b", text)) <= 1
+
     def _fixpoint(self):
+        for key in self.fns:
+            if self.dead(key):
+                for p in self.params(key):
+                    self.param_conf[(key, p)] = True
         changed = True
         rounds = 0
         while changed and rounds < 12:
